@@ -564,7 +564,9 @@ pub fn resource_entangled(lib: &Library, c: &crate::witgen::CompModel, arg: &str
 /// interface that `c` itself exports.
 pub fn uses_own_export(lib: &Library, c: &crate::witgen::CompModel, export: &str) -> bool {
     let exported: Vec<&str> = c.world.exports.iter().map(|e| e.extern_name()).collect();
-    crate::witgen::use_closure(&lib.pkgs, export).iter().any(|y| exported.contains(&y.as_str()))
+    crate::witgen::use_closure(&lib.pkgs, export)
+        .iter()
+        .any(|y| exported.iter().any(|e| *e == y.as_str() || crate::props::c15::model_compatible(e, y)))
 }
 
 /// Whether exported interface `export` of instantiation `inst` uses (transitively) a type of an
